@@ -231,3 +231,85 @@ PROPS["C03"] = {
                    "record sum to <= RecordAllocLimit), alloc_counter_saturates. Panics / over-allocation inside decoders "
                    "and converters are searched for by hostile-input runs against the real code, not proved absent."),
 }
+
+CODEC_TB = COMMON_TB + [
+    "harness/internal/recgen: schema-directed reflective mutator/dumper over the PUBLIC API of the generated package",
+    "zstd: the harness re-frames zstd streams into their uncompressed equivalent (klauspost/compress) before the Lean decoder sees them",
+    "Stef/Spec.lean (independent decoder) follows stef-spec/specification.md + DESIGN.md appendix D",
+]
+
+PROPS["C01"] = {
+    "lean_modules": ["Stef.Props.C01"],
+    "harness": [{"bin": "h_codec", "args": ["roundtrip"], "oracle_prefixes": ["sd decode"]}],
+    "rule": ("cases = type-directed random histories on otelstef Metrics and Spans writers (wide value distributions: all "
+             "float classes, integer extremes/wrapping deltas, repeated strings, lengths across 0/1/62/63/64/65, nested "
+             "AnyValue, frozen shared dict structs, CopyFrom) x writer options (none/zstd, frame limits 0..64K, dict limits, "
+             "all restart-flag subsets, descriptor, user data) x Flush placement; each stream is decoded by the Go reader AND by "
+             "the Lean specification decoder and both must equal the records set; non-trivial = >= 2 writes with a top-level "
+             "field left unmodified and a dictionary reference; distinct by hash of the stream"),
+    "trusted_base": CODEC_TB,
+    "assumptions": ["memory aliasing (values of earlier records staying unchanged) is checked by the harness only"],
+    "level_text": ("Proved for all histories: roundtrip_struct_of_primitives (differential mask encoding over any lawful primitive "
+                   "codec, n <= 64 fields) with instances roundtrip_int_struct, roundtrip_float_struct; setter_marks_changes. "
+                   "Optional fields, oneofs, arrays, multimaps, dictionary structs and frames are NOT covered by a theorem: "
+                   "there the round trip is decided on the real code by the harness with the Lean specification decoder as an "
+                   "independent oracle (10 known findings of the 'marks relative to current instead of last encoded value' family)."),
+}
+
+PROPS["C02"] = {
+    "lean_modules": ["Stef.Props.C02"],
+    "harness": [{"bin": "h_codec", "args": ["golden"], "oracle_prefixes": ["sd decode"]},
+                {"bin": "h_codec", "args": ["roundtrip"], "oracle_prefixes": ["sd decode"]}],
+    "rule": ("golden corpus corpus/C02/*.golden (150 streams of both roots recorded at the pinned commit; the current Go reader and "
+             "the Lean specification decoder must both return the recorded records) + the generated histories of C01 decoded by the "
+             "independent Lean decoder, which also counts direct encodings of values already in their dictionary (dv must be 0); "
+             "non-trivial = stream with >= 2 records; distinct by stream hash"),
+    "trusted_base": CODEC_TB + ["the Java peer is represented by the Lean specification decoder, it is not run"],
+    "assumptions": [],
+    "level_text": ("Theorems: fixed_header_layout, frame_layout (model framing = specification parser), dict_ref_always, "
+                   "dict_admission, plus the value-format theorems of C20. The statement 'an independent decoder decodes the bytes "
+                   "to the records written' is decided per generated history by running Stef.Spec.decodeStream (core Lean, shares "
+                   "no code with the library) on the bytes the real writer produced."),
+}
+
+PROPS["C05"] = {
+    "lean_modules": ["Stef.Props.C05"],
+    "harness": [{"bin": "h_codec", "args": ["cuts"]}],
+    "rule": ("cases = small histories (all restart-flag subsets, none/zstd, Flush placement); EVERY cut offset of streams <= ~600 "
+             "bytes and sampled offsets of larger ones is read with the real reader until error: exactly the records of complete "
+             "frames, then an error, never a panic; non-trivial = cut strictly inside a frame; distinct by (stream, offset)"),
+    "trusted_base": CODEC_TB + ["Stef/Reader.lean: hand transcription of the frame state machine (CompressionNone), read call-site "
+                                "table regenerated (Gen/CallSites.lean)"],
+    "assumptions": ["zstd: a truncated compressed frame never decompresses to the full announced length (harness only)"],
+    "level_text": ("Theorems over all frame lists, all cut offsets, all schedules: prefix_reads_complete_frames, "
+                   "truncated_frame_is_error (model of NextFrame/ReadBufs.ReadFrom/Read loop, frame content loaded with "
+                   "full-read semantics per regenerated call-site table). zstd truncation is correspondence-only."),
+}
+
+PROPS["C06"] = {
+    "lean_modules": ["Stef.Props.C06"],
+    "harness": [{"bin": "h_codec", "args": ["flush"]}],
+    "rule": ("cases = random interleavings of Write, Flush, unrestricted Read, Read with TillEndOfFrame and later appends over an "
+             "instrumented growing source that counts accesses; non-trivial = a frame-restricted read returned ErrEndOfFrame; "
+             "distinct by history hash"),
+    "trusted_base": CODEC_TB + ["Stef/Reader.lean, Stef/Limiter.lean (hand transcriptions)"],
+    "assumptions": ["bufio.Reader retries the source after io.EOF (observed by the harness)"],
+    "level_text": ("Theorems: till_end_of_frame_no_io (source untouched, for every state), till_end_of_frame_outcome, "
+                   "complete_frames_all_readable, flush_leaves_nothing_open, resume_at_boundary."),
+}
+
+PROPS["C07"] = {
+    "lean_modules": ["Stef.Props.C07"],
+    "harness": [{"bin": "h_codec", "args": ["chunking"]}],
+    "rule": ("cases = valid streams read through iotest.OneByteReader, random short reads, DataErrReader vs a whole-buffer read; "
+             "outcomes (record dumps or error class) must be identical; non-trivial = a short read inside the header; distinct by "
+             "(stream, schedule)"),
+    "trusted_base": CODEC_TB + ["Stef/Reader.lean with the regenerated read call-site table (io.ReadFull vs bare Read)",
+                                "bufio.Reader / io.ReadFull / binary.ReadUvarint have full-read semantics (library, trusted)"],
+    "assumptions": [],
+    "level_text": ("Theorems: chunking_independent (any two schedules give the same header result, records and error when every "
+                   "call site has full-read semantics), chunking_independent_frames (holds on the current table for the frame part)."),
+}
+
+PROPS["C08"]["harness"].append({"bin": "h_codec", "args": ["limits"]})
+PROPS["C03"]["harness"].append({"bin": "h_codec", "args": ["hostile"]})
